@@ -82,15 +82,60 @@ def check(rep, tier, seed):
             ts = tuple(l for l in li if l.startswith("T "))
             rep.add_case((tuple(m["Ns"]), m["halfrate"], ts[:30]), nontrivial=any(" rcA 0 rcB 0 " in l for l in ts),
                          sample=m if int(k) % 13 == 0 else None)
+    # ---- part 2: the lapped seek of the model (VFile.seek_lap: set-up, lapping data, plain seek, priming without spanning
+    # links, lapout) replayed step by step against ov_pcm_seek_lap / ov_pcm_seek_page_lap / ov_raw_seek_lap inside histories
+    # of reads, plain seeks and half-rate toggles: return code, reported position, byte cursor, ready state, link and the
+    # count of every read must agree; where the hypotheses of C19_lapped_seek_lands_on_target hold (model-only `thml`
+    # lines) the implementation must return 0 and report exactly the target
+    files2 = vfx.make_files(SplitMix(seed * 1000003 + 1919), 48 if tier == "quick" else 600, tier, os.path.join(wd, "hist"), small=True,
+                            allow_trim_begin="even")
+    cases2 = []
+    for k, fi in enumerate(files2):
+        r = SplitMix(seed * 7919 + 500000 + k)
+        total = sum(fi["Ns"])
+        nb = len(fi["data"])
+        bounds = [sum(fi["Ns"][:j]) for j in range(len(fi["Ns"]) + 1)]
+        ops = []
+        for _ in range(30 if tier == "quick" else 60):
+            x = r.below(10)
+            if r.chance(1, 9):
+                ops.append("hr:%d" % r.below(2))
+            if x < 3:
+                ops.append("rf:%d" % r.choice([1, 7, 64, 500, 4096]))
+            elif x < 4:
+                ops.append("ps:%d" % r.below(total + 1))
+            elif x < 5:
+                ops.append("rs:%d" % r.below(nb + 1))
+            elif x < 8:
+                t = r.choice(bounds + [total]) + r.choice([0, 0, -1, 1]) if r.chance(1, 2) else r.below(total + 1)
+                t = max(0, min(total, t)) if r.chance(14, 15) else r.choice([-1, 1 << 40])
+                ops.append(r.choice(["pl:%d", "pl:%d", "ql:%d"]) % t)
+                ops.append("rf:%d" % r.choice([1, 64, 500]))
+            else:
+                ops.append("rl:%d" % (r.below(nb + 1) if r.chance(14, 15) else r.choice([-1, nb + 1])))
+                ops.append("rf:%d" % r.choice([1, 64, 500]))
+        text = "case %d 1 %d %d %d %s\nops %s\n" % (k, r.choice([0, 0, 7, 255]), k, r.below(2) if r.chance(1, 3) else 0, fi["data"].hex(), " ".join(ops))
+        cases2.append((text, {"case": k, "Ns": fi["Ns"], "kinds": fi["kinds"], "bytes": nb, "ops": " ".join(ops)[:300]}))
+    results2 = vfx.run_cases("C19", cases2, os.path.join(wd, "hist"))
+    dist2 = {}
+    bad_prop2, bad_tie = vfx.classify(results2, [c[1] for c in cases2], os.path.join(wd, "hist"), rep, dist2)
+    bad_prop += bad_prop2
+    dist["histories"] = dist2
     rep.coverage["rule"] = ("chained files (differing channels, rates, short-block sizes incl. 64) x lapped pcm/page/raw/time seeks from random old "
                             "positions (link ends, end of stream, after long reads) on twin handles: same return/landing as the plain seek, "
                             "bit-identical from min(n1,n2) samples on, inside = new*w^2 + old*(1-w^2) (extra new channels faded from silence); "
-                            "EOF-without-lapping only when nothing follows the target or there is no decode state; non-trivial = a lapped seek succeeded")
+                            "EOF-without-lapping only when nothing follows the target or there is no decode state; non-trivial = a lapped seek succeeded. "
+                            "Part 2: histories of reads, plain seeks, half-rate toggles and lapped sample/page/byte seeks (rejected arguments included) "
+                            "replayed on the extracted model of the lapped seek (VFile.seek_lap): every return code, position, byte cursor, ready state, "
+                            "link and read count compared; theorem C19_lapped_seek_lands_on_target demanded from the real code where its hypotheses hold")
     rep.coverage["distribution"] = dist
     for key, ex in known.items():
         rep.violation("deviation listed in KNOWN_FINDINGS.txt under key " + key, ex, key=key)
     if bad_prop:
         rep.violation("property fails on the implementation", {"failures": bad_prop[:10], "seed": seed})
+    elif bad_tie:
+        rep.violation("correspondence VFile.v (seek_lap) <-> lib/vorbisfile.c no longer holds", {"differences": bad_tie[:10], "seed": seed},
+                      found_input=False)
     if not pr["ok"]:
         rep.violation("proof obligations of Properties_C19.v not discharged: " + "; ".join(pr["failed"]),
                       {"theorem_file": "coq/Properties_C19.v", "failed": pr["failed"], "log": pr["log"][-3000:]},
